@@ -337,7 +337,8 @@ type cutCase struct {
 	Place int
 }
 
-var cutBlanks = []string{" ", "\t", "   ", " \t "}
+// (round 9: and no blank at all - a line that ends in a TTL, "rel 300", is dropped as well)
+var cutBlanks = []string{" ", "\t", "   ", " \t ", ""}
 
 var cutLines = func() []string {
 	var out []string
@@ -443,7 +444,7 @@ func init() {
 		return nil
 	})
 	c07Probe(kEOFBlank, func() error {
-		for _, text := range []string{"a. 3600 IN ", "a. ", "$TTL ", "x. 5 IN A 1.2.3.4\nb. 3600 "} {
+		for _, text := range []string{"a. 3600 IN ", "a. ", "$TTL ", "x. 5 IN A 1.2.3.4\nb. 3600 ", "x. 5 IN A 1.2.3.4\nb. 3600"} {
 			out, viol := runParser(map[string]string{"f.db": text}, parserCfg{File: "f.db", Origin: "example."}, nil)
 			if viol != nil {
 				return fmt.Errorf("%s", strings.SplitN(viol.Error(), "\n", 2)[0])
@@ -465,7 +466,4 @@ func init() {
 		}
 		return nil
 	})
-	pbt.Register(pbt.Sub[fillerCase]{Name: "paren-filler", Weight: 0.03, Gen: genFiller, Check: noShrink(checkFiller)})
-	pbt.RegisterEnum(pbt.Enum[fillerCase]{Name: "paren-filler-table", Exhaustive: true, Each: eachFiller, Check: noShrink(checkFiller)})
-	pbt.RegisterEnum(pbt.Enum[cutCase]{Name: "breaks-off-at-eof", Exhaustive: true, Each: eachCut, Check: noShrink(checkCut)})
 }
